@@ -389,9 +389,13 @@ func runShake(out *vio.Out, le *logrus.Entry) {
 		res := map[string]any{"e": "shake", "round": r}
 		// 1. honest handshake: both sides report the other's identity
 		a, b := startNode(n, le, "A", "addrA"), startNode(n, le, "B", "addrB")
-		ctx, cancel := context.WithTimeout(context.Background(), 10*time.Second)
+		ctx, cancel := context.WithTimeout(context.Background(), 60*time.Second)
 		lnk, _, err := a.tpt.DialPeer(ctx, b.id, "addrB")
 		res["honest_ok"] = err == nil && lnk != nil && lnk.GetRemotePeer() == b.id && lnk.GetLocalPeer() == a.id
+		// the reports are delivered asynchronously: wait for them (bounded), then a little longer for a spurious extra one
+		for dl := time.Now().Add(15 * time.Second); time.Now().Before(dl) && (len(b.h.remotes()) == 0 || len(a.h.remotes()) == 0); {
+			time.Sleep(2 * time.Millisecond)
+		}
 		time.Sleep(30 * time.Millisecond)
 		bre := b.h.remotes()
 		res["honest_listener_sees_dialer"] = len(bre) == 1 && bre[0] == a.id.String()
@@ -416,10 +420,27 @@ func runShake(out *vio.Out, le *logrus.Entry) {
 		// 3. session-level expected peer: a different peer answers -> handshake refused
 		c := n.bind("addrC")
 		identA, _ := p2ptls.NewIdentity(a.key)
-		_, _, err3 := transport_quic.DialSession(ctx, le, nil, c, identA, memAddr("addrS"), xid)
+		ctx3, cancel3 := context.WithTimeout(context.Background(), 30*time.Second)
+		_, _, err3 := transport_quic.DialSession(ctx3, le, nil, c, identA, memAddr("addrS"), xid)
+		cancel3()
 		res["expected_peer_mismatch_refused"] = err3 != nil
-		_, _, err4 := transport_quic.DialSession(ctx, le, nil, n.bind("addrC2"), identA, memAddr("addrS"), y.id)
+		// (a handshake that merely ran out of time on a loaded machine is retried; only an answer counts)
+		var err4 error
+		timedOut := false
+		for att := 0; att < 3; att++ {
+			ctx4, cancel4 := context.WithTimeout(context.Background(), 30*time.Second)
+			_, _, err4 = transport_quic.DialSession(ctx4, le, nil, n.bind(fmt.Sprintf("addrC2-%d", att)), identA, memAddr("addrS"), y.id)
+			timedOut = err4 != nil && ctx4.Err() != nil
+			cancel4()
+			if !timedOut {
+				break
+			}
+		}
 		res["expected_peer_match_accepted"] = err4 == nil
+		res["expected_peer_match_timeout"] = timedOut
+		if err4 != nil {
+			res["expected_peer_match_err"] = err4.Error()
+		}
 		// 4. raw QUIC clients with forged certificates dial the honest listener B
 		before := len(b.h.remotes())
 		K, M := vio.Key("quicnet/K"), vio.Key("quicnet/M")
@@ -554,7 +575,7 @@ func runHist(le *logrus.Entry, idx int, hist []string, emit func(map[string]any)
 		}
 		win := 450 * time.Millisecond
 		if pi == len(hist)-1 {
-			win = 20 * time.Second
+			win = 60 * time.Second // liveness bound: generous, handshakes are slow on a loaded machine
 			if o != "X" {
 				win = 700 * time.Millisecond
 			}
